@@ -340,7 +340,7 @@ loop:
 		case <-stop:
 		default:
 			oc.died = true
-			_ = err
+			oc.stderr += fmt.Sprintf("\n[worker exit status: %v]", err)
 		}
 	}
 	return oc
@@ -665,7 +665,7 @@ func runClass(v *variant, prop string, cls sim.Class, tier string, seed, n uint6
 							vc = sim.HangClass
 						}
 						vv = &violation{cls: cls, run: uint64(oc.lastRun), vclass: vc, death: true, stderr: tail(oc.stderr, 6000),
-							detail: "worker process " + map[bool]string{true: "stopped responding (watchdog)", false: "died"}[oc.hung] + " during this run: " + firstLines(oc.stderr, 6)}
+							detail: "worker process " + map[bool]string{true: "stopped responding (watchdog)", false: "died"}[oc.hung] + " during this run: " + firstLines(oc.stderr, 3) + " | ... | " + lastLines(oc.stderr, 14)}
 					default:
 						from = j.to
 						continue
@@ -693,6 +693,14 @@ func tail(s string, n int) string {
 		return s[len(s)-n:]
 	}
 	return s
+}
+
+func lastLines(s string, n int) string {
+	ls := strings.Split(strings.TrimSpace(s), "\n")
+	if len(ls) > n {
+		ls = ls[len(ls)-n:]
+	}
+	return strings.Join(ls, " | ")
 }
 
 func firstLines(s string, n int) string {
